@@ -8,6 +8,7 @@ use crate::engine::core::read::aggregate::plan::AggregateOpSpec;
 use crate::engine::core::{Event, EventId, QueryPlan};
 use crate::engine::types::ScalarValue;
 use ahash::RandomState as AHashRandomState;
+use std::collections::hash_map::Entry;
 use std::collections::{BTreeMap, HashMap};
 
 /// Converts aggregated groups into Events
@@ -115,8 +116,23 @@ pub(crate) fn into_partial(
             bucket: k.bucket,
             groups: groups_str_vec,
         };
-        let vec_states = aggs.into_iter().map(|a| snapshot_aggregator(&a)).collect();
-        partial_groups.insert(pk, vec_states);
+        let vec_states: Vec<AggState> = aggs.into_iter().map(|a| snapshot_aggregator(&a)).collect();
+        // Two sink keys can stringify to the same partial key (the un-grouped columnar
+        // fast path uses a key with `prehash: 0` that is `==` to, but hashed differently
+        // from, the row path's key): merge the states instead of replacing one group.
+        match partial_groups.entry(pk) {
+            Entry::Vacant(e) => {
+                e.insert(vec_states);
+            }
+            Entry::Occupied(mut e) => {
+                let existing = e.get_mut();
+                if existing.len() == vec_states.len() {
+                    for (a, b) in existing.iter_mut().zip(vec_states.iter()) {
+                        a.merge(b);
+                    }
+                }
+            }
+        }
     }
     AggPartial {
         specs,
